@@ -60,6 +60,10 @@ Proof. exact json_roundtrip. Qed.
    reader refuses it) *)
 Theorem C20_json_depth_limit_refuted : exists v, wfj v = true /\ jparse (jser v) = None.
 Proof. exact json_depth_limit_refuted. Qed.
+(* hence different documents never serialise to the same text *)
+Theorem C20_json_serialise_injective : forall v w, wfj v = true -> wfj w = true ->
+  (jdepth v < depth_limit)%nat -> (jdepth w < depth_limit)%nat -> jser v = jser w -> v = w.
+Proof. exact jser_injective. Qed.
 (* every part on its own: strings (all escapes), numbers (all four layouts of the float text), inside any context *)
 Theorem C20_json_string_roundtrip : forall s rest, forallb char_ok s = true ->
   pstr (flat_map esc_char s ++ 34 :: rest) = Some (s, rest).
@@ -101,3 +105,4 @@ Print Assumptions C20_json_depth_limit_refuted.
 Print Assumptions C20_json_string_roundtrip.
 Print Assumptions C20_json_number_roundtrip.
 Print Assumptions C20_json_nonvacuous.
+Print Assumptions C20_json_serialise_injective.
